@@ -202,6 +202,25 @@ def fromInput [Zero K] : Input K → Option (Basis K)
   | .seq _ (.sp nr nc e :: rest) => (allRow nc (.sp nr nc e :: rest)).map (fromSparseRows nc)
   | .seq _ (.vec v :: rest) => (allVec v.length (.vec v :: rest)).map (fromFields v.length)
 
+/-- What NumPy/SciPy guarantee about the object an `Input` describes (shapes of an ndarray,
+lengths and index ranges of the arrays of a sparse matrix).  The driver evaluates this very
+predicate on every `new` request and answers `bad-op` when it fails — so every basis the driver
+ever builds comes from a valid input, and `Properties/C14.lean` (`fromInput_WF`) proves that
+this makes the basis well-formed (`WF`, the hypothesis of the basis theorems). -/
+def Mode.valid : Mode K → Bool
+  | .vec _ => true
+  | .sp _ nc e => e.all fun p => p.1 < nc
+
+def Input.valid : Input K → Bool
+  | .ndarray n m rows => rows.length == n && rows.all (·.length == m)
+  | .spmat .csc n m p q d =>
+    p.length == m + 1 && q.length == d.length && q.all (· < n) && p.getLast? == some d.length
+  | .spmat .csr n m p q d =>
+    p.length == n + 1 && q.length == d.length && q.all (· < m) && p.getLast? == some d.length
+  | .spmat .coo n m p q d =>
+    p.length == d.length && q.length == d.length && p.all (· < n) && q.all (· < m)
+  | .seq _ items => items.all Mode.valid
+
 /-! ## Operations -/
 
 /-- `linear_combination`: `transformation_matrix.dot(coefficients)`.  Dense: row-by-row dot
